@@ -337,6 +337,12 @@ class Molecule(BigSMILESbase):
                             )
 
                 if isinstance(element, Stochastic) and isinstance(next_element, SmilesToken):
+                    # The token is attached through one of its compatible bond descriptors,
+                    # picked according to their weights.
+                    total_weight = 0
+                    for other_bd in next_element.bond_descriptors:
+                        if graph_bd.is_compatible(other_bd):
+                            total_weight += other_bd.weight
                     for other_bd in next_element.bond_descriptors:
                         if (
                             graph_bd.is_compatible(other_bd)
@@ -344,7 +350,7 @@ class Molecule(BigSMILESbase):
                             and bond_descriptors[graph_bd] in element.repeat_tokens
                             and other_bd.weight > 0
                         ):
-                            G.add_edge(graph_bd, other_bd, trans_prob=1.0)
+                            G.add_edge(graph_bd, other_bd, trans_prob=other_bd.weight / total_weight)
 
                 if (
                     isinstance(element, Stochastic)
